@@ -135,4 +135,133 @@ theorem c17_forced_version_noop (O : Oracles) (opts : DeserOpts) (c : ClassOpts)
       cases this
     simp only [bindE, c17_setKw_append _ _ hex, c17_setKw_of_lookup ys hv]
 
+/-! ### the instance carries the forced version -/
+
+theorem c17_lookup_setKw (k : String) (v : PyVal) : ∀ l : List (String × PyVal), lookup k (setKw k v l) = some v
+  | [] => by simp [setKw, lookup]
+  | (k', v') :: r => by
+    by_cases hk : k' = k
+    · subst hk; simp [setKw, lookup]
+    · have hk' : (k == k') = false := by simpa using (Ne.symm hk)
+      simp only [setKw, hk, if_false, lookup, hk', Bool.false_eq_true, c17_lookup_setKw k v r]
+
+theorem c17_lookup_append_skip {k : String} : ∀ (a b : List (String × PyVal)),
+    (∀ p, p ∈ a → p.1 ≠ k) → lookup k (a ++ b) = lookup k b
+  | [], _, _ => by simp
+  | (k', v') :: r, b, h => by
+    have hk : k' ≠ k := h (k', v') List.mem_cons_self
+    have hk' : (k == k') = false := by simpa using (Ne.symm hk)
+    simp only [List.cons_append, lookup, hk', Bool.false_eq_true, if_false]
+    exact c17_lookup_append_skip r b (fun p hp => h p (List.mem_cons_of_mem _ hp))
+
+/-- the constructor's per-field pass stores the integer `version` keyword as it is -/
+theorem c17_validateFields_version (O : Oracles) (c : ClassOpts) (defaults kw : List (String × PyVal))
+    (o : NumOpts) (L : Int) (hl : lookup "version" kw = some (.int L)) :
+    ∀ (fields : List (String × FieldDecl)) (ys : List (String × PyVal)),
+      (∀ f, ("version", f) ∈ fields → f = .integer o) → "version" ∈ fields.map (·.1) →
+      validateFields O c defaults kw fields = .ok ys → lookup "version" ys = some (.int L)
+  | [], _, _, hin, _ => by simp at hin
+  | (name, f) :: rest, ys, hf, hin, h => by
+    have hfr : ∀ f, ("version", f) ∈ rest → f = .integer o := fun f hm => hf f (List.mem_cons_of_mem _ hm)
+    by_cases hn : name = "version"
+    · subst hn
+      have hfi := hf f List.mem_cons_self
+      subst hfi
+      simp only [validateFields, argFor, hl, PyVal.isNone, Bool.false_and, Bool.false_eq_true, if_false] at h
+      simp only [validate] at h
+      cases hv : vInteger o (.int L) with
+      | error e => simp [hv, bindE] at h
+      | ok w =>
+        have hw : w = .int L := by
+          simp only [vInteger] at hv
+          split at hv
+          · cases hv; rfl
+          · cases hv
+        subst hw
+        simp only [hv, bindE] at h
+        cases hr : validateFields O c defaults kw rest with
+        | error e => simp [hr] at h
+        | ok zs =>
+          simp only [hr] at h
+          cases h
+          simp [lookup]
+    · have hin' : "version" ∈ rest.map (·.1) := by
+        simp only [List.map_cons, List.mem_cons] at hin
+        rcases hin with h' | h'
+        · exact absurd h'.symm hn
+        · exact h'
+      simp only [validateFields] at h
+      cases ha : argFor c defaults kw name with
+      | none =>
+        simp only [ha] at h
+        exact c17_validateFields_version O c defaults kw o L hl rest ys hfr hin' h
+      | some v =>
+        simp only [ha] at h
+        cases hd : validate O f v with
+        | error e => simp [hd, bindE] at h
+        | ok y =>
+          simp only [hd, bindE] at h
+          cases hr : validateFields O c defaults kw rest with
+          | error e => simp [hr] at h
+          | ok zs =>
+            simp only [hr] at h
+            cases h
+            have hne : ("version" == name) = false := by simpa using (Ne.symm hn)
+            simp only [lookup, hne, Bool.false_eq_true, if_false]
+            exact c17_validateFields_version O c defaults kw o L hl rest zs hfr hin' hr
+
+/-- **every instance the `Versioned` remainder returns carries the forced version** — whatever version the
+    (converted) document claims -/
+theorem c17_versionedRest_version (O : Oracles) (opts : DeserOpts) (c : ClassOpts)
+    (fields : List (String × FieldDecl)) (defaults : List (String × PyVal)) (latest : Int) (d : Convert.Json)
+    (o : NumOpts) (hf : ∀ f, ("version", f) ∈ fields → f = .integer o) (hin : "version" ∈ fields.map (·.1))
+    (x : PyVal) (h : versionedRest O opts (.struct c fields defaults) latest d = .ok x) :
+    ∃ attrs, x = .inst c.name attrs ∧ lookup "version" attrs = some (.int latest) := by
+  -- the continuation handed to `dClassRef`
+  have key : ∀ kw : List (String × PyVal),
+      bindE (bindE (deserFields O opts c kw fields false)
+          (fun args => .ok (deserExtras opts c (fields.map (·.1)) kw ++ args))) (fun args =>
+        vConstruct c (fields.map (·.1)) (setKw "version" (.int latest) args)
+          (validateFields O c defaults (setKw "version" (.int latest) args) fields)) = .ok x →
+      ∃ attrs, x = .inst c.name attrs ∧ lookup "version" attrs = some (.int latest) := by
+    intro kw hk
+    cases hd : deserFields O opts c kw fields false with
+    | error e => simp [hd, bindE] at hk
+    | ok ys =>
+      simp only [hd, bindE, vConstruct] at hk
+      split at hk
+      · cases hk
+      · cases hv : validateFields O c defaults
+            (setKw "version" (.int latest) (deserExtras opts c (fields.map (·.1)) kw ++ ys)) fields with
+        | error e => simp [hv] at hk
+        | ok attrs =>
+          simp only [hv] at hk
+          cases hk
+          refine ⟨_, rfl, ?_⟩
+          have hva := c17_validateFields_version O c defaults _ o latest (c17_lookup_setKw "version" (.int latest) _)
+            fields attrs hf hin hv
+          rw [c17_lookup_append_skip _ _ (by
+            intro p hp hpe
+            simp only [extrasOf, List.mem_filter, Bool.and_eq_true, Bool.not_eq_true'] at hp
+            have := hp.2.1
+            rw [hpe] at this
+            have h2 : (fields.map (·.1)).contains "version" = true := List.contains_iff_mem.mpr hin
+            rw [h2] at this
+            cases this)]
+          exact hva
+  simp only [versionedRest] at h
+  cases hp : toPy d with
+  | dict kvs =>
+    simp only [hp, dClassRef] at h
+    cases hk : kwOfDict kvs with
+    | none =>
+      simp only [hk] at h
+      split at h
+      · exact key _ h
+      · cases hdf : deserFields O opts c (strKw kvs) fields false <;> simp [hdf, bindE] at h
+    | some kw =>
+      simp only [hk] at h
+      exact key _ h
+  | _ => simp [hp] at h
+
 end Typedpy.ConvertDeser
